@@ -6,7 +6,7 @@ use crate::reader::{FaultKind, Personality, ReaderFault};
 use crate::rng::Rng;
 use crate::scenario::{Scenario, Stats, T2Spec, Tier, Violation};
 use crate::t2;
-use crate::world::{dir_of, parse_include, resolve, split_lines, Special};
+use crate::world::{dir_of, parse_include, resolve, split_lines, Special, World};
 use std::collections::BTreeMap;
 
 const MODES: [&[&str]; 9] = [&[], &["--no-color"], &["--compact"], &["--json"], &["--yaml"], &["--debug"], &["--all-files"], &["--no-output"], &["--compact", "--all-files"]];
@@ -77,6 +77,20 @@ pub fn generate(r: &mut Rng, tier: Tier, run_index_hint: u64) -> Scenario {
         world = before_faults;
         content.clear();
         note.push_str("faults-dropped(too-large) ");
+    }
+    if r.chance(1, 40) {
+        // an acyclic include graph that stands for exponentially many inclusions: every file
+        // includes the next one twice (n tiny files = 2^n inclusions of the last)
+        let n = 6 + r.usize(21);
+        let mut files = std::collections::BTreeMap::new();
+        for i in 0..n {
+            files.insert(format!("f{i}.s"), format!(".include \"f{}.s\"\n.include \"f{}.s\"\n", i + 1, i + 1));
+        }
+        files.insert(format!("f{n}.s"), if r.chance(1, 2) { "# leaf\n".to_string() } else { "    li t0, 1\n".to_string() });
+        files.insert("base.s".to_string(), "main:\n.include \"f0.s\"\n    li a7, 10\n    ecall\n".to_string());
+        world = World { base: "base.s".into(), files, ..World::default() };
+        content.clear();
+        note.push_str("diamond-includes ");
     }
     let n_imports = world.include_directives() + 1;
     let mut rfaults = Vec::new();
